@@ -122,6 +122,13 @@ package memory
 //@   ensures[none]  len(m.fp) < 2 ==> result == nil
 //@   ensures[frame] len(m.fp) >= 2 ==> arr(result) == arr(m.stack) && off(result) == off(m.stack) + topFP(m) && len(result) == topLE(m) - topFP(m)
 //
+// IP: the slot holding the return address of the active call (nil at top level). The VM pushes the
+// return address right after PushFrame, so the slot exists below the stack pointer.
+//@ func (*Type).IP [C18,C05] pure
+//@   requires wf(m)
+//@   requires[ip_pushed] len(m.fp) >= 2 ==> topLE(m) < m.sp
+//@   ensures[none] len(m.fp) < 2 ==> result == nil
+//
 //@ func (*Type).ResetSP [C18,C09]
 //@   requires m != nil
 //@   modifies m.sp
